@@ -180,9 +180,11 @@ func (propC02) Gen(r *Rng, run uint64, tier string) *Plan {
 		p.Params.LookbackNs = -int64(1+r.Intn(40)) * sec
 	}
 	_ = sel
-	p.Query = c02Query(ms, kind, rng, off)
+	suffix := Pick(r.Sub("suffix"), c02Suffixes)
+	p.Tags["suffix"] = suffix
+	p.Query = c02Query(ms, kind, rng, off, suffix)
 	if kind == "metric_binop" {
-		p.Query = c02Query(ms, "metric_range", rng, off) + " + " + c02Query(msB, "metric_range", rng, off)
+		p.Query = c02Query(ms, "metric_range", rng, off, suffix) + " + " + c02Query(msB, "metric_range", rng, off, "")
 	}
 	switch kind {
 	case "log_range":
@@ -207,8 +209,13 @@ func (propC02) Gen(r *Rng, run uint64, tier string) *Plan {
 	return p
 }
 
-func c02Query(ms []Matcher, kind string, rng, off int64) string {
-	sel := SelectorString(ms)
+// c02Suffixes are pipelines that neither drop a line nor touch its text or its
+// container labels: the selection, the window and the origin of every line
+// must be what they are without them.
+var c02Suffixes = []string{"", "", "", ` |= "c"`, ` | logfmt`, ` | drop nosuch`, ` | label_format extra=container`, ` != "never-in-a-line"`}
+
+func c02Query(ms []Matcher, kind string, rng, off int64, suffix string) string {
+	sel := SelectorString(ms) + suffix
 	if !strings.HasPrefix(kind, "metric_") {
 		return sel
 	}
@@ -236,13 +243,19 @@ func (propC02) ShrinkCandidates(p *Plan) []*Plan {
 		c := p.Clone()
 		rest := append(append([]Matcher(nil), ms[:i]...), ms[i+1:]...)
 		c.Tags["matchers"] = mustJSON(rest)
-		c.Query = c02Query(rest, p.Tags["kind"], rng, off)
+		c.Query = c02Query(rest, p.Tags["kind"], rng, off, p.Tags["suffix"])
 		out = append(out, c)
 	}
 	if off != 0 {
 		c := p.Clone()
 		c.Tags["offset"] = "0"
-		c.Query = c02Query(ms, p.Tags["kind"], rng, 0)
+		c.Query = c02Query(ms, p.Tags["kind"], rng, 0, p.Tags["suffix"])
+		out = append(out, c)
+	}
+	if p.Tags["suffix"] != "" {
+		c := p.Clone()
+		c.Tags["suffix"] = ""
+		c.Query = c02Query(ms, p.Tags["kind"], rng, off, "")
 		out = append(out, c)
 	}
 	return out
@@ -301,6 +314,7 @@ func (propC02) Check(t *testing.T, p *Plan, st *Stats) *Violation {
 			}
 			st.Signature(fmt.Sprintf("%s|%s|sel=%d/%d", kind, ops, len(want), len(p.World.Containers)))
 		}
+		st.ProbeIf(p.Tags["suffix"] != "", "selector_followed_by_pipeline")
 		st.ProbeIf(len(want) == 0, "selects_none")
 		st.ProbeIf(len(want) == len(p.World.Containers) && len(want) > 0, "selects_all")
 		st.ProbeIf(len(want) > 0 && len(want) < len(p.World.Containers), "selects_proper_subset")
